@@ -385,6 +385,14 @@ def run_case(spec):
             if sm is dev.mesh or np.shares_memory(np.asarray(sm.sites), np.asarray(dev.mesh.sites)):
                 cx.viol("smoothed_mesh_aliases_original", {})
             check_mesh(cx, dev, "after_smoothing_a_copy")
+            # the mesh smooth() hands back is a mesh like any other: its dual (circumcentres, edge vectors, cell areas) belongs to ITS sites
+            d3 = dev.copy()
+            d3.mesh = sm
+            check_mesh(cx, d3, "mesh_returned_by_Mesh.smooth")
+            # the copy is another device: giving IT another coherence length (a material sweep on copies of one template) does not
+            # rescale the original's physical mesh
+            d2.layer.coherence_length = 4.0 * float(d2.layer.coherence_length)
+            check_mesh(cx, dev, "original_after_its_copy_got_another_coherence_length")
         elif post == "translate_copy_inplace":
             # Device.copy() shares the Mesh object with the original: moving the COPY in place leaves the original where it is
             W = float(np.ptp(dev.film.points[:, 0]))
